@@ -178,6 +178,40 @@ example : verify2 freeAlg Cfg.strict (exTree.hash freeAlg) [false, true, true]
 example : verifyL freeAlg Cfg.strict (exTree.hash freeAlg) [true, false, false]
     (Trie.prove freeAlg true false (some exTree) [true, false, false]) = .ok (.felt 0) := by decide
 
+/-! ## Keys as felts
+
+Both `VerifyProof` take the key as a felt and convert it with `SetFelt(251, key)`, which keeps the low
+251 bits; the field has felts ≥ 2^251 (up to 2^251 + 17·2^192). -/
+
+/-- DEFECT of /repo today (known finding `*:key-plus-2^251:accepted`): without the range check the felt
+`k + 2^n` is verified exactly like the key `k` — "the key is altered" is not noticed: a proof of `k ↦ v`
+is also accepted as a proof of `(k + 2^n) ↦ v`, a key no trie of height n holds. -/
+theorem felt_key_alias (A : HashAlg H) (cfg : Cfg) (hck : cfg.checkKey = false) (n : Nat) (r : H)
+    (k : Nat) (P : PSet H) :
+    verifyLFelt A cfg n r (2 ^ n + k) P = verifyLFelt A cfg n r k P ∧
+    verify2Felt A cfg n r (2 ^ n + k) P = verify2Felt A cfg n r k P := by
+  simp [verifyLFelt, verify2Felt, hck, pathOfNat_add_pow n n (Nat.le_refl n) k]
+
+/-- With the range check (`Cfg.strict`): an accepted felt key is below 2^n and the answer is the answer
+for its bit path — so `proof_sound_legacy` / `proof_sound_trie2` apply to felt keys as they stand. -/
+theorem felt_key_checked (A : HashAlg H) (cfg : Cfg) (hck : cfg.checkKey = true) (n : Nat) (r : H)
+    (k : Nat) (P : PSet H) (v : H) :
+    (verifyLFelt A cfg n r k P = Res.ok v → k < 2 ^ n ∧ verifyL A cfg r (pathOfNat n k) P = Res.ok v) ∧
+    (verify2Felt A cfg n r k P = Res.ok v → k < 2 ^ n ∧ verify2 A cfg r (pathOfNat n k) P = Res.ok v) := by
+  constructor
+  · intro h
+    unfold verifyLFelt at h
+    by_cases hk : k ≥ 2 ^ n
+    · simp [hck, hk] at h
+    · simp [hck, hk] at h
+      exact ⟨by omega, h⟩
+  · intro h
+    unfold verify2Felt at h
+    by_cases hk : k ≥ 2 ^ n
+    · simp [hck, hk] at h
+    · simp [hck, hk] at h
+      exact ⟨by omega, h⟩
+
 /-! ## Storage proofs over RPC: slot ∈ storage trie ∈ contract leaf ∈ contracts trie ∈ state root
 
 `commit` is the state commitment of the block's protocol version as a function of the two roots
